@@ -1,9 +1,13 @@
-"""Per-property check specifications. One entry per claimed property.
+"""Per-property check specifications, loaded from runner/props/Cxx.py (each defines SPEC).
 
-keys: props (Lean modules with the property theorems), tie (Lean modules whose theorems depend on
-Generated.Facts), engines (list of {engine, extra, quick:{}, thorough:{}}), binaries ({name: go package}),
-assumptions, trusted_extra, required_theorems, search_budget_s.
+SPEC keys: props (Lean modules with the property theorems; default ["Props.Cxx"]), tie (Lean modules whose
+theorems depend on Generated.Facts), engines (list of {engine, extra:{}, quick:{}, thorough:{}, timeout}),
+binaries ({name: go package in /repo}), assumptions [..], trusted_extra [..], required_theorems [..],
+search_budget_s, level_text, level_note, technique, design_ref.
 """
+import importlib
+import os
+import pkgutil
 
 TRUSTED_BASE = [
     "Lean 4.33.0 kernel (thorough tier: re-checked by leanchecker)",
@@ -14,12 +18,10 @@ TRUSTED_BASE = [
 ]
 
 PROPS = {}
-
-PROPS["SELFTEST"] = {
-    "props": ["Props.Selftest"],
-    "tie": [],
-    "engines": [{"engine": "selftest"}],
-}
+_d = os.path.join(os.path.dirname(__file__), "props")
+for _m in sorted(pkgutil.iter_modules([_d])):
+    mod = importlib.import_module("runner.props." + _m.name)
+    PROPS[_m.name] = mod.SPEC
 
 HOOK_COMMITS = ["a10baf7"]
 
